@@ -33,6 +33,9 @@ type vEnv struct {
 	Before map[string]func()
 	After  map[string]func()
 	Calls  map[string]int
+	// Limit: a method called more often than this is a failure on the spot (the message says what).
+	Limit    map[string]int
+	LimitMsg string
 }
 
 func vRaw(v interface{}) json.RawMessage {
@@ -53,6 +56,9 @@ func vIfaces(args []json.RawMessage) []interface{} {
 
 func (e *vEnv) peer(conn *rpc2.Client, method string, args []json.RawMessage) (interface{}, error) {
 	e.Calls[method]++
+	if n, ok := e.Limit[method]; ok && e.Calls[method] > n {
+		rt.Assert(false, e.LimitMsg)
+	}
 	if f := e.Fail[method]; len(f) > 0 {
 		e.Fail[method] = f[1:]
 		return nil, errors.New(f[0])
